@@ -16,6 +16,7 @@
     c05.dropcol N n col…   c05.rename N old new   c05.create N n col…
     c05.createas N n col… src k e_1…e_k cond   CREATE TABLE N (cols) AS SELECT e… FROM src WHERE cond
     c05.commit                                                           → ok m=
+    c05.rollback                         marked tables back to their committed state → ok m=
     c05.committed N                           the committed table as text → dump of texts
     c05.dump N                                                           → dump
   F (field list) = `-` (all columns) or `k f_1…f_k`.
@@ -341,6 +342,9 @@ def step (s : State) (cmd : String) (args : List String) : State × String :=
     match lookupT s.committed n with
     | none => (s, n ++ "?")
     | some t => (s, dumpText n t)
+  | "rollback", [] =>
+    let s' := rollback s
+    (s', "ok " ++ showMarks s'.marks)
   | "commit", [] =>
     let s' := commit s
     (s', "ok " ++ showMarks s'.marks)
